@@ -750,7 +750,7 @@ def _lang_check(case):
 
 @st.composite
 def _window_case(draw, tier):
-    lens = draw(_lengths(1, 6, 10))
+    lens = draw(_lengths(0, 6, 10))  # (an utterance may have no frame at all: it still has an id and a size)
     return {
         "kind": "window", "lens": lens, "F": draw(st.integers(1, 2)),
         "B": draw(st.integers(1, 5)), "K": 1, "K_ignored": True, "dyn": False,
@@ -772,7 +772,7 @@ def _window_case(draw, tier):
               "features (left/right/reverse), alis concatenated, window_sizes and ids attached",
           required_classes=["window_wider_than_utterance", "empty_set", "drop", "after_abandoned_pass", "iterator_held_open",
                             "shared_data_set_object", "stored_as_view", "layout_transposed", "layout_offset",
-                            "context_ge_15", "length_ge_10"])
+                            "context_ge_15", "length_ge_10", "zero_frame_utterance_with_ids"])
 def _window_check(case):
     from pydrobert.torch import data
 
@@ -826,6 +826,8 @@ def _window_check(case):
         _run_epochs(case, make, lengths, verify, cl)
     if any(T < C for T in lengths):
         cl.add("window_wider_than_utterance")
+    if any(T == 0 for T in lengths) and any(T > 0 for T in lengths) and not case["suppress_uttids"]:
+        cl.add("zero_frame_utterance_with_ids")
     if max(case["left"], case["right"]) >= 15:
         cl.add("context_ge_15")
     if lengths and max(lengths) >= 10:
@@ -843,7 +845,7 @@ def _window_check(case):
 @st.composite
 def _collate_case(draw, tier):
     kind = draw(st.sampled_from(["spect", "spect", "lang", "window"]))
-    lo = 0 if kind != "window" else 1
+    lo = 0  # (zero-frame utterances too, also for context windows)
     size = draw(_pick(["small"] * 5 + ["many", "long"]))
     if size == "many":
         # many items of small length / a few very long items: lengths expanded from two integers
